@@ -10,7 +10,7 @@ SPEC = {
                  'C27_rejected_no_effect_refuted', 'C27_rejected_no_effect_partial', 'C27_rejected_no_effect_nonvacuous',
                  'C27_no_poison_refuted', 'C27_no_poison_partial', 'C27_no_poison_nonvacuous',
                  'C27_rejected_invisible_refuted', 'C27_rejected_invisible_partial', 'C27_rejected_invisible_nonvacuous',
-                 'C27_orphan_siblings_connected', 'C27_no_panic_refuted',
+                 'C27_orphan_siblings_connected', 'C27_no_panic', 'C27_nil_fork_refused',
                  'C27_valid_refines_C25', 'C27_valid_refines_nonvacuous'],
     'allowed_axioms': [],
     'shard': 16,
@@ -51,10 +51,11 @@ SPEC = {
         'solo consensus: CheckBlock only refuses empty blocks and a block time below the parent\'s',
     ],
     'manifest': {
-        'level_text': 'partial: the node violates the property in three recorded ways (stored body + index node of a '
-                      'failed block poison the genuine block; a failing reorganisation is not rolled back; nil fork after '
-                      'DelNode panics); a fourth (ProcessOrphans stopped at the first refused orphan) is repaired in chain33 '
-                      'and modelled as repaired. Proved for all histories: the best chain only holds blocks whose '
+        'level_text': 'partial: the node violates the property in two recorded ways (stored body + index node of a '
+                      'failed block poison the genuine block; a failing reorganisation is not rolled back); two more '
+                      '(ProcessOrphans stopped at the first refused orphan; nil fork after DelNode made ProcessBlock panic) '
+                      'are repaired in chain33 and modelled as repaired. Proved for all histories and states: ProcessBlock '
+                      'does not panic; proved for all histories: the best chain only holds blocks whose '
                       'stored/served body passed the checks, and every served body was delivered under that hash; rejected '
                       'deliveries that are below the reorganisation margin, share their hash with no valid delivery and are '
                       'nobody\'s parent are as if they had never arrived (same best chain as the run over the valid deliveries '
@@ -62,7 +63,7 @@ SPEC = {
                       'cannot start a reorganisation leaves the best chain unchanged; a valid block whose hash was not seen '
                       'before is never answered "exists" and its body is served; with only valid deliveries and consistent '
                       'heights the model coincides with the chain-selection model of C25 (so C25_converges applies). The Go '
-                      'node agrees with the model on every generated history, and outside the three signatures with the '
+                      'node agrees with the model on every generated history, and outside the two signatures with the '
                       'reference "rejected blocks never arrived"',
         'level_note': 'validity is an oracle; hashes/bodies abstract; fork choice as in C25; finalizer static; capacity '
                       'limits not reached',
@@ -74,7 +75,9 @@ SPEC = {
 
 
 def extra(ctx):
-    """Finding C27-3 (panic) is never the first divergence of a history; count the panics of the run and report it."""
+    """ProcessBlock must not panic (C27_no_panic; finding C27-3 was repaired by the nil-fork guard in connectBestChain).
+    In the generated streams a panic is never the first divergence of a history, so the panics of the whole run are
+    counted here: as long as an entry with code 3 is open they are that known finding, otherwise a violation."""
     panics = 0
     first = None
     for c in ctx.cases:
@@ -82,12 +85,15 @@ def extra(ctx):
             if st.get('err') == 7:
                 panics += 1
                 if first is None:
-                    first = c.get('id')
+                    first = c
     known = []
     res = {'violations': [], 'known': known, 'coverage': {'processblock_panics': panics}}
     if panics:
         path = os.path.join(os.path.dirname(os.path.dirname(os.path.abspath(__file__))), 'known_findings', 'C27.json')
         ent = [e for e in json.load(open(path))['findings'] if e.get('code') == 3 and e.get('status') == 'open']
         if ent:
-            known.append('KNOWN-FINDING: property=C27 %s [%d panic(s) this run, e.g. case %s]' % (ent[0]['what'], panics, first))
+            known.append('KNOWN-FINDING: property=C27 %s [%d panic(s) this run, e.g. case %s]' % (ent[0]['what'], panics, first.get('id')))
+        else:
+            res['violations'].append({'kind': 'failing-input', 'theorem_or_correspondence': 'C27_no_panic (ProcessBlock does not panic)',
+                                      'what': '%d ProcessBlock call(s) panicked in this run; first case shown' % panics, 'case': first})
     return res
